@@ -268,8 +268,61 @@ func c07Order(w *World, r *Report, ra *repoAnchors) {
 			}
 		}
 	}
+	// interprocedural: a call made while holding a lock, from which a function acquiring another of the
+	// repository's mutexes is reachable, orders the held lock before that mutex
+	cg := w.CG()
+	lockers := map[*ssa.Function][]*lockOp{}
+	for _, fn := range w.Funcs {
+		if w.isMockFn(fn) {
+			continue
+		}
+		root := fn
+		for root.Parent() != nil {
+			root = root.Parent()
+		}
+		if root.Signature.Recv() == nil || derefNamed(root.Signature.Recv().Type()) != ra.t {
+			continue
+		}
+		for _, op := range lockInfo(fn).Ops {
+			if op.Op == "lock" || op.Op == "rlock" {
+				lockers[fn] = append(lockers[fn], op)
+			}
+		}
+	}
+	for fn := range lockers {
+		li := lockInfo(fn)
+		for _, e := range cg.Out[fn] {
+			ci, ok := e.Site.(ssa.CallInstruction)
+			if !ok || len(li.At[ci]) == 0 || lockOpOf(fn, ci) != nil {
+				continue
+			}
+			parent, _ := cg.Reachable([]*ssa.Function{e.Callee}, func(f *ssa.Function) bool { return !w.inModule(f) })
+			for lf, ops := range lockers {
+				if _, reached := parent[lf]; !reached {
+					continue
+				}
+				for _, op := range ops {
+					for held := range li.At[ci] {
+						if heldName(held) != heldName(op.Key) {
+							edges[[2]string{heldName(held), heldName(op.Key)}] = ci.Pos()
+						} else {
+							edges[[2]string{heldName(held), heldName(held)}] = ci.Pos()
+						}
+					}
+				}
+			}
+		}
+	}
+	norm := map[[2]string]token.Pos{}
+	for e, p := range edges {
+		norm[[2]string{heldName(e[0]), heldName(e[1])}] = p
+	}
+	edges = norm
 	cyc := false
 	for e := range edges {
+		if e[0] == e[1] {
+			cyc = true
+		}
 		if _, rev := edges[[2]string{e[1], e[0]}]; rev {
 			cyc = true
 		}
@@ -281,6 +334,14 @@ func c07Order(w *World, r *Report, ra *repoAnchors) {
 	sort.Strings(es)
 	r.Note("lock order: " + strings.Join(es, ", "))
 	r.Ob(ri, "lock-order-acyclic", token.NoPos, !cyc, "two functions acquire the repository's mutexes in opposite order: "+strings.Join(es, ", "))
+}
+
+// heldName reduces a lock key to the mutex field name (the repository is a singleton object).
+func heldName(k string) string {
+	if i := strings.LastIndex(k, "."); i >= 0 {
+		return k[i+1:]
+	}
+	return k
 }
 
 func c07Reentrancy(w *World, r *Report, ra *repoAnchors) {
@@ -418,6 +479,26 @@ func c07Clone(w *World, r *Report, ra *repoAnchors) {
 				switch x := o.(type) {
 				case *ssa.Alloc:
 					fresh = true
+					// a fresh child node must be filled by the recursive clone, from the same field of the source
+					if derefNamed(f.Type()) != nil && strings.HasSuffix(derefNamed(f.Type()).Obj().Pkg().Path(), "/radixtree") {
+						rec := false
+						for _, c := range callsIn(ci) {
+							if c.Common().StaticCallee() != ci || len(c.Common().Args) != 2 {
+								continue
+							}
+							_, sp := accessPath(c.Common().Args[0])
+							ro, op := accessPath(c.Common().Args[1])
+							srcOK := len(sp) == 1 && sp[0] == f.Name()
+							dstOK := c.Common().Args[1] == ssa.Value(x) || (ro == ssa.Value(out) && len(op) == 1 && op[0] == f.Name())
+							if srcOK && dstOK {
+								rec = true
+							}
+						}
+						if !rec {
+							fresh = false
+							msg = "the fresh node stored into field " + f.Name() + " is not filled by the recursive clone (a plain struct copy shares the child's slices and children with the original)"
+						}
+					}
 				case *ssa.MakeSlice, *ssa.MakeMap:
 					fresh = true
 					// a slice of nodes: the elements must be fresh nodes
@@ -435,8 +516,13 @@ func c07Clone(w *World, r *Report, ra *repoAnchors) {
 								}
 								root, p := accessPath(ia.X)
 								if (root == ssa.Value(out) && len(p) == 1 && p[0] == f.Name()) || ia.X == x.(ssa.Value) {
-									if _, isA := es.Val.(*ssa.Alloc); isA {
-										elemFresh = true
+									if ea, isA := es.Val.(*ssa.Alloc); isA {
+										// and the fresh element is filled by the recursive clone
+										for _, c := range callsIn(ci) {
+											if c.Common().StaticCallee() == ci && len(c.Common().Args) == 2 && c.Common().Args[1] == ssa.Value(ea) {
+												elemFresh = true
+											}
+										}
 									}
 								}
 							})
